@@ -119,10 +119,19 @@ func (mo *monitors) judgeCommit(ev commitEvent) {
 // from more than two thirds of the prescribed set's power.
 func (mo *monitors) judgeShownQuorum(v *tmconsensus.VersionedRoundView, label string) {
 	vs := v.VoteSummary
-	hash := vs.MostVotedPrecommitHash
-	if hash == "" || vs.AvailablePower == 0 || !exceedsTwoThirds(vs.PrecommitBlockPower[hash], vs.AvailablePower) {
+	if vs.AvailablePower == 0 {
 		return
 	}
+	// every block the summary credits with more than two thirds, not only the most voted one
+	for hash, p := range vs.PrecommitBlockPower {
+		if hash != "" && exceedsTwoThirds(p, vs.AvailablePower) {
+			mo.judgeShownQuorumFor(v, label, hash)
+		}
+	}
+}
+
+func (mo *monitors) judgeShownQuorumFor(v *tmconsensus.VersionedRoundView, label, hash string) {
+	vs := v.VoteSummary
 	mo.judgedShownQuorums++
 	set := mo.w.set(v.Height)
 	var sigs []gcrypto.SparseSignature
